@@ -4,7 +4,7 @@ import os
 import subprocess
 import sys
 
-from vlib import chrun
+from vlib import chrun, report
 from vlib.harness import base
 
 PROP = "C20"
@@ -15,8 +15,8 @@ def cross_process(r):
     "concrete side check: same builds in fresh interpreters with different hash seeds"
     outs = []
     for seed in ("0", "1", "random"):
-        env = dict(os.environ, PYTHONHASHSEED=seed, PYTHONPATH="/verif")
-        p = subprocess.run([sys.executable, "-m", "vlib.sh.c20_queries"], capture_output=True, text=True, env=env, cwd="/verif")
+        env = dict(os.environ, PYTHONHASHSEED=seed, PYTHONPATH=report.ROOT + (":" + os.environ["PYTHONPATH"] if os.environ.get("PYTHONPATH") else ""))
+        p = subprocess.run([sys.executable, "-m", "vlib.sh.c20_queries"], capture_output=True, text=True, env=env, cwd=report.ROOT)
         line = [x for x in p.stdout.splitlines() if x.startswith("HASHES ")]
         if not line:
             r.harness_error("c20_queries failed: " + (p.stderr or p.stdout)[-400:])
